@@ -646,6 +646,18 @@ impl<'a> Monitor<'a>
                     self.fire(regs, Kind::Mutation(k), Some(Name::Ent(e)), None, cmd);
                 }
             }
+            Op::MutateNow(e, _) =>
+            {
+                // exactly one trigger per triggering accessor call, whatever happened to the entity since the call
+                if issued.issue_ok
+                {
+                    let alive = self.ents[e as usize].alive;
+                    let regs = self.matching_regs(|t| {
+                        (*t == Trig::EntityMutation(Comp::A, e) && alive) || *t == Trig::Mutation(Comp::A)
+                    });
+                    self.fire(regs, Kind::Mutation(Comp::A), Some(Name::Ent(e)), None, cmd);
+                }
+            }
             Op::ResMutate(how) =>
             {
                 let mut trigger = false;
@@ -730,6 +742,36 @@ impl<'a> Monitor<'a>
     }
 
     fn gc_irrelevant(&mut self) {}
+
+    /// Body-time accessors take effect on the stored value while the body runs.
+    fn on_issue_time(&mut self, issued: &Issued)
+    {
+        let Op::MutateNow(e, how) = issued.op else { return };
+        let alive = self.ents[e as usize].alive;
+        let cur = if alive { self.ents[e as usize].comps[0] } else { None };
+        let (expect_trigger, expect_value): (bool, Option<i16>) = match (how, cur)
+        {
+            (How::GetMut, Some(v)) => { self.ents[e as usize].comps[0] = Some(v ^ 1); (true, None) }
+            (How::GetMut, None) => (false, None),
+            (How::SetIfNeq(n), Some(v)) =>
+            {
+                if v != n { self.ents[e as usize].comps[0] = Some(n); (true, Some(v as i16)) } else { (false, Some(-1)) }
+            }
+            (How::SetIfNeq(_), None) => (false, Some(-1)),
+            (How::NoReact(n), Some(_)) => { self.ents[e as usize].comps[0] = Some(n); (false, None) }
+            _ => (false, None),
+        };
+        if issued.issue_ok != expect_trigger
+        {
+            self.viol("C14", "R-accessor", format!("accessor-trigger-decision:{:?}", how),
+                format!("{:?} on entity {e} (component {:?}): accessor triggered={}, expected {}", how, cur, issued.issue_ok, expect_trigger));
+        }
+        if expect_value.is_some() && issued.value != expect_value
+        {
+            self.viol("C14", "R-accessor", "set-if-neq-return".into(),
+                format!("set_if_neq on entity {e} (component {:?}) returned {:?}, expected {:?}", cur, issued.value, expect_value));
+        }
+    }
 
     fn add_actor(&mut self, id: ActorId, variant: Variant, once: bool)
     {
@@ -1674,6 +1716,31 @@ impl<'a> Monitor<'a>
         {
             self.viol("C05", "R-release", "double-drop".into(), format!("payload {p} dropped twice"));
         }
+        // A system that does not take its system events cannot tell us which of several pending system events a run
+        // was for; the payload that is released tells us now. Re-assign marks among such interchangeable deliveries.
+        for &i in info.obls.iter()
+        {
+            let o = self.obls[i].clone();
+            if o.kind != Kind::SysEvent || !matches!(o.state, OState::Postponed) { continue; }
+            if self.actors.get(o.actor as usize).map(|a| a.variant) != Some(Variant::NoTake) { continue; }
+            let swap = self.obls.iter().position(|x| x.actor == o.actor && x.kind == Kind::SysEvent
+                && matches!(x.state, OState::Running | OState::Exited | OState::Done)
+                && x.payload.map(|q| q != p && self.payloads.get(&q).map(|pi| pi.dropped == 0).unwrap_or(false)).unwrap_or(false));
+            if let Some(j) = swap
+            {
+                let (si, sj) = (self.obls[i].state, self.obls[j].state);
+                self.obls[i].state = sj;
+                self.obls[j].state = si;
+                let (ri, rj) = (self.obls[i].run, self.obls[j].run);
+                self.obls[i].run = rj;
+                self.obls[j].run = ri;
+                // frames refer to obligations by index
+                for f in self.frames.iter_mut()
+                {
+                    if f.obl == Some(j) { f.obl = Some(i); } else if f.obl == Some(i) { f.obl = Some(j); }
+                }
+            }
+        }
         // never while a scheduled reader has yet to run
         for &i in info.obls.iter()
         {
@@ -1829,6 +1896,7 @@ impl<'a> Monitor<'a>
             TEv::Top{ cmd, issued } => { self.issued.insert(*cmd, issued.clone()); }
             TEv::Issue{ cmd, issued } =>
             {
+                self.on_issue_time(issued);
                 self.issued.insert(*cmd, issued.clone());
                 if let Some(f) = self.frames.last_mut() { f.issued += 1; }
             }
